@@ -607,7 +607,26 @@ func c10LengthInBlockScalar(a, b string) bool {
 				continue
 			}
 			if c10BlockHeader.MatchString(l) && c10Indent(l) < minInd {
-				return true
+				// narrowed in round 4: a blanked line is scalar content only if it is LONGER than the block's content
+				// indentation (= indentation of the first non-blank, non-excluded line after the header; none: header
+				// indentation + 1); two versions that are both at most that long are both plain blank lines of the scalar.
+				if hdr := l[strings.LastIndex(l, ":"):]; strings.ContainsAny(hdr, "0123456789") {
+					return true // explicit indentation indicator: the content indentation is not the first line's
+				}
+				ci := c10Indent(l) + 1
+				for k := j + 1; k < len(la); k++ {
+					if isEx[k+1] || strings.TrimSpace(la[k]) == "" {
+						continue
+					}
+					if c10Indent(la[k]) > c10Indent(l) {
+						ci = c10Indent(la[k])
+					}
+					break
+				}
+				if len(la[i]) > ci || len(lb[i]) > ci {
+					return true
+				}
+				break
 			}
 			if ind := c10Indent(l); ind < minInd {
 				minInd = ind
